@@ -608,6 +608,7 @@ func runC12(tier string, args []string) {
 	run := ev.New("C12", tier, "exploration")
 	run.Rule("A: seeded rule lists (0-6 rules; any subset of fromnode/tonode/fromservice/toservice; literals and /regex/ patterns from a dictionary with top-level and grouped alternations, user anchors, //, wildcards, prefix/suffix names, classes, (?i) (?s) flags, inner slashes, regex metacharacters in literals; any key/action letter case; 25% of the lists carry exactly one malformation: lone '/', unterminated /abc, non-compiling body, unknown or non-string key, unknown/missing/non-string action, non-string value) x 4 packets each (72% aimed at a rule, 38% of those perturbed into a near miss); receptor's ParseFirewallRules + first-non-continue composition run in child processes (one result line per case), compared with an own reference model (equality; full match ^(?:body)$; first match wins; default accept; refuse uninterpretable lists). " +
 		"B: three real nodes a-b-c over memnet; seeded rule lists installed with AddFirewallRules on one, two or three nodes (always bracketed by an explicit accept for the fence service); unique-id datagrams and pings between all node pairs from real sockets; delivery / 'blocked by firewall' notice / ping reply observed at sockets and compared with the reference decision evaluated at origin, transit and destination in path order (notices and ping replies are themselves packets subject to the rules); absence is judged after a fence datagram sent later on the same path has been echoed back. " +
+		"D: node configurations (types.NodeCfg with firewallrules, as the daemon's node section produces them), each started with Init() in its own child process: lists with exactly one malformation of each class injected into one rule of an otherwise valid list must make the start-up fail; valid lists must start and be in force for node-local datagrams between real sockets of the started node (delivered / silent / 'blocked by firewall' notice as the reference model's first matching rule says; every valid case contains a packet its list stops). " +
 		"distinct_nontrivial = distinct observed (part, position of the deciding rule or default, action, literal/regex mix, malformed class + refused/accepted/panic; for B also datagram/ping, role of the deciding node, fate of the notice)")
 	run.Assume("a rule field given as the empty string is 'not given' (the statement speaks of 'all of its given fields')")
 	run.Assume("a pattern is /body/ whose body compiles on its own with Go regexp; it matches iff ^(?:body)$ matches; (?m) is not used")
@@ -624,6 +625,11 @@ func runC12(tier string, args []string) {
 		defer wg.Done()
 		c12PartB(run)
 		run.Extra("B_wall_s", fmt.Sprintf("%.1f", time.Since(t0).Seconds()))
+	}()
+	wg.Add(1)
+	go func() {
+		defer wg.Done()
+		c12PartD(run, work)
 	}()
 	c12PartA(run, work)
 	run.Extra("A_wall_s", fmt.Sprintf("%.1f", time.Since(t0).Seconds()))
